@@ -43,6 +43,8 @@ type rdef struct {
 	path    string
 	methods []string
 	bt      bool
+	// extra: a second route on the same path expression with a path_params condition (one rule, two routes on one node)
+	twoRoutes bool
 }
 
 var bTrue = true
@@ -50,31 +52,37 @@ var bTrue = true
 // versions per source. valid=false means the processor must reject the set as a whole.
 var versions = map[string]map[string][]rdef{
 	"A": {
-		"v1": {{"r1", "/x", []string{"GET"}, false}, {"r2", "/x", nil, false}},
-		"v2": {{"r1", "/x", []string{"POST"}, false}, {"r2", "/x", nil, false}},
-		"v3": {{"r2", "/x", nil, false}, {"r1", "/x", []string{"GET"}, false}},
-		"v4": {{"r1", "/x", []string{"GET"}, false}},
-		"v5": {{"r1", "/x", []string{"GET"}, false}, {"r2", "/x", nil, false}, {"r3", "/y", nil, false}},
-		"v6": {{"r1", "/x", []string{"GET"}, true}, {"r2", "/x", []string{"GET"}, true}, {"r4", "/:p", nil, false}},
-		"v7": {{"r1", "/x/:p", []string{"GET"}, true}, {"r2", "/x/*q", nil, false}},
-		"v8": {{"r1", "/a/**/b", nil, false}},
-		"v9": {{"r1", "/z", nil, false}},
-		"va": {{"r2", "/x", []string{"POST"}, false}, {"r1", "/x", nil, false}, {"r5", "/xy", nil, false}},
+		"v1": {{"r1", "/x", []string{"GET"}, false, false}, {"r2", "/x", nil, false, false}},
+		"v2": {{"r1", "/x", []string{"POST"}, false, false}, {"r2", "/x", nil, false, false}},
+		"v3": {{"r2", "/x", nil, false, false}, {"r1", "/x", []string{"GET"}, false, false}},
+		"v4": {{"r1", "/x", []string{"GET"}, false, false}},
+		"v5": {{"r1", "/x", []string{"GET"}, false, false}, {"r2", "/x", nil, false, false}, {"r3", "/y", nil, false, false}},
+		"v6": {{"r1", "/x", []string{"GET"}, true, false}, {"r2", "/x", []string{"GET"}, true, false}, {"r4", "/:p", nil, false, false}},
+		"v7": {{"r1", "/x/:p", []string{"GET"}, true, false}, {"r2", "/x/*q", nil, false, false}},
+		"v8": {{"r1", "/a/**/b", nil, false, false}},
+		"v9": {{"r1", "/z", nil, false, false}},
+		"va": {{"r2", "/x", []string{"POST"}, false, false}, {"r1", "/x", nil, false, false}, {"r5", "/xy", nil, false, false}},
+		// wildcard names: the name used by a deleted version must not survive in the tree
+		"vb": {{"r1", "/w/:a", nil, false, false}},
+		"vc": {{"r1", "/w/:b", nil, false, false}},
+		// one rule with two routes on the same path expression
+		"vd": {{"r1", "/d/:a", nil, false, true}, {"r2", "/x", nil, false, false}},
 	},
 	"B": {
-		"w1": {{"q1", "/z", nil, false}},
-		"w2": {{"q1", "/z/:p", nil, false}, {"q2", "/zz", nil, false}},
-		"w3": {{"q1", "/x", nil, false}},
-		"w4": {{"q1", "/:p", []string{"POST"}, true}, {"q2", "/**", nil, false}},
+		"w1": {{"q1", "/z", nil, false, false}},
+		"w2": {{"q1", "/z/:p", nil, false, false}, {"q2", "/zz", nil, false, false}},
+		"w3": {{"q1", "/x", nil, false, false}},
+		"w4": {{"q1", "/:p", []string{"POST"}, true, false}, {"q2", "/**", nil, false, false}},
+		"w5": {{"q1", "/w/:a/foo", nil, false, false}},
 	},
 }
 
 var verOrder = map[string][]string{
-	"A": {"v1", "v2", "v3", "v4", "v5", "v6", "v7", "v8", "v9", "va"},
-	"B": {"w1", "w2", "w3", "w4"},
+	"A": {"v1", "v2", "v3", "v4", "v5", "v6", "v7", "v8", "v9", "va", "vb", "vc", "vd"},
+	"B": {"w1", "w2", "w3", "w4", "w5"},
 }
 
-var probePaths = []string{"/x", "/y", "/z", "/zz", "/x/1", "/x/1/2", "/z/1", "/o", "/xy"}
+var probePaths = []string{"/x", "/y", "/z", "/zz", "/x/1", "/x/1/2", "/z/1", "/o", "/xy", "/w/1", "/w/1/foo", "/d/v", "/d/o"}
 
 func ruleSet(src, ver string) *rulecfg.RuleSet {
 	rs := &rulecfg.RuleSet{Version: rulecfg.CurrentRuleSetVersion, Name: ver}
@@ -85,7 +93,7 @@ func ruleSet(src, ver string) *rulecfg.RuleSet {
 		r := rulecfg.Rule{
 			ID: d.id,
 			Matcher: rulecfg.Matcher{
-				Routes:              []rulecfg.Route{{Path: d.path}},
+				Routes:              routesOf(d),
 				Methods:             append([]string{}, d.methods...),
 				BacktrackingEnabled: &bt,
 			},
@@ -95,6 +103,19 @@ func ruleSet(src, ver string) *rulecfg.RuleSet {
 	}
 
 	return rs
+}
+
+func routesOf(d rdef) []rulecfg.Route {
+	if !d.twoRoutes {
+		return []rulecfg.Route{{Path: d.path}}
+	}
+
+	name := d.path[strings.LastIndex(d.path, ":")+1:]
+
+	return []rulecfg.Route{
+		{Path: d.path, PathParams: []rulecfg.ParameterMatcher{{Name: name, Type: "exact", Value: "v"}}},
+		{Path: d.path, PathParams: []rulecfg.ParameterMatcher{{Name: name, Type: "exact", Value: "w"}}},
+	}
 }
 
 type world struct {
@@ -241,6 +262,27 @@ func checkHistory(c *engine.Ctx, hist []Op) *world {
 
 	if err != nil {
 		c.Outcome("change-rejected")
+
+		// a change may only be rejected for a reason that also holds for a fresh load: if the sets that would be
+		// current after the operation can be loaded once into an empty instance, the rejection depends on history
+		would := map[string]string{}
+		for k, v := range w.cur {
+			would[k] = v
+		}
+
+		if last.Kind == "delete" {
+			delete(would, last.Src)
+		} else {
+			would[last.Src] = last.Ver
+		}
+
+		_, fe1 := fresh(would, []string{"A", "B"})
+		_, fe2 := fresh(would, []string{"B", "A"})
+
+		if fe1 == nil && fe2 == nil {
+			c.Violation("change-rejected-although-the-resulting-sets-load-into-an-empty-instance/"+last.Kind,
+				histStr+": the last operation failed ("+err.Error()+") but a fresh instance loads "+fmt.Sprint(would), hist)
+		}
 
 		if rules.VerifRepoDump(w.repo) != beforeDump {
 			c.Violation("rejected-change-modified-repository-state",
